@@ -79,7 +79,9 @@ def gen_cases(tier, seed):
         for _ in range(10 if q else 200):
             fr = F.mgmt(rng, st, F.elements(rng), fixed=bytes(rng.randrange(256) for _ in range(rng.choice([0, 2, 4, 6, 12]))))
             cases.append("mgmt 0 " + hx(fr))
-    return cases, {"generator_layout_frames": n_gen, "total": len(cases)}
+    wide = F.wide(rng, q)["mgmt"]
+    cases += ["mgmt %d %s" % (rt, hx(buf)) for rt, buf in wide]
+    return cases, {"generator_layout_frames": n_gen, "frames_over_65535_bytes": len(wide), "total": len(cases)}
 
 
 def judge(case, impl, model, spec=None):
